@@ -83,12 +83,17 @@ Proof.
   induction l as [|n l IHl].
   - rewrite ge_walk_nil. cbn [filter map]. f_equal.
     unfold ge_spec. cbn [filter map]. rewrite map_const_repeat, intervals_length. reflexivity.
-  - rewrite ge_walk_cons. inversion Sl; subst. inversion Fa; subst.
-    inversion Sz; subst.
+  - rewrite ge_walk_cons.
+    assert (Szb : zsorted (b :: r)) by (inversion Sz; assumption).
+    assert (Hab : a <= b) by (inversion Sz; subst; match goal with H : Forall _ (b :: r) |- _ => inversion H; assumption end).
+    assert (Sl' : sorted_by time l) by (inversion Sl; assumption).
+    assert (Hnl : Forall (fun y => time n <= time y) l) by (inversion Sl; assumption).
+    assert (Han : a <= time n) by (inversion Fa; assumption).
+    assert (Fa' : Forall (fun n => a <= time n) l) by (inversion Fa; assumption).
     destruct (time n >=? b) eqn:E.
     + (* advance: every remaining event is at or after b *)
       assert (Fb : Forall (fun m => b <= time m) (n :: l)).
-      { constructor; [lia|]. eapply Forall_impl; [|exact H2]. cbn; intros; lia. }
+      { constructor; [lia|]. eapply Forall_impl; [|exact Hnl]. cbn; intros; lia. }
       rewrite IHr; [|assumption|assumption|assumption].
       rewrite filter_none
         by (eapply Forall_impl; [|exact Fb]; cbn; intros; lia).
@@ -100,8 +105,17 @@ Proof.
       cbn [cons_hd filter]. assert (E2 : (time n <? b) = true) by lia. rewrite E2. cbn [map].
       f_equal. apply map_ext_in. intros [p q] Hpq. cbn [fst snd].
       symmetry. apply ge_spec_skip.
-      pose proof (intervals_fst_ge b r H3) as G. rewrite Forall_forall in G.
+      pose proof (intervals_fst_ge b r Szb) as G. rewrite Forall_forall in G.
       specialize (G _ Hpq). cbn in G. lia.
+Qed.
+
+Lemma ge_spec_filter_ge : forall t0 p q l0, t0 <= p ->
+  ge_spec p q (filter (fun n => negb (time n <? t0)) l0) = ge_spec p q l0.
+Proof.
+  intros t0 p q l0 Hp. unfold ge_spec. f_equal. induction l0 as [|n r0 IH]; [reflexivity|].
+  cbn [filter]. destruct (time n <? t0) eqn:E; cbn [negb filter].
+  - unfold in_piece at 2. destruct (p <=? time n) eqn:E2; [lia|]. cbn [andb]. exact IH.
+  - destruct (in_piece p q (time n)); [f_equal|]; exact IH.
 Qed.
 
 (** the virtual container of index -1 and the [continue] filter *)
@@ -126,10 +140,7 @@ Proof.
   destruct rest as [|b r]; [reflexivity|].
   rewrite intervals_cons2. cbn [map fst snd].
   assert (K : forall p q, t0 <= p -> ge_spec p q l = ge_spec p q l0).
-  { intros p q Hp. unfold ge_spec, l. f_equal. induction l0 as [|n r0 IH]; [reflexivity|].
-    cbn [filter]. destruct (time n <? t0) eqn:E; cbn [negb filter].
-    - unfold in_piece at 2. destruct (p <=? time n) eqn:E2; [lia|]. cbn [andb]. exact IH.
-    - destruct (in_piece p q (time n)); [f_equal|]; exact IH. }
+  { intros p q Hp. unfold l. now apply ge_spec_filter_ge. }
   f_equal.
   - rewrite <- ge_spec_all_ge by exact Fl. apply K. lia.
   - apply map_ext_in. intros [p q] Hpq. cbn [fst snd]. apply K.
@@ -201,11 +212,14 @@ Proof.
     + apply key_eqb_eq in E. subst k'. cbn [find fst snd].
       destruct (key_eqb k kk); reflexivity.
     + cbn [find fst snd]. destruct (key_eqb k' kk) eqn:E2.
-      * apply key_eqb_eq in E2. subst k'. rewrite E. reflexivity.
+      * apply key_eqb_eq in E2. subst k'.
+        destruct (key_eqb k kk) eqn:E3; [|reflexivity].
+        apply key_eqb_eq in E3. subst. rewrite key_eqb_refl in E. discriminate.
       * apply IH.
 Qed.
 
-Lemma dict_set_keys : forall d k v x, In x (map fst (dict_set d k v)) <-> x = k \/ In x (map fst d).
+Lemma dict_set_keys : forall (d : list (key * A)) k v x,
+  In x (map fst (dict_set d k v)) <-> x = k \/ In x (map fst d).
 Proof.
   induction d as [|[k' v'] r IH]; intros k v x.
   - cbn. intuition.
@@ -317,7 +331,12 @@ Proof.
     unfold walk_spec, wk. cbn [filter map]. f_equal.
     rewrite (map_ext _ (fun _ => map zero (opt_list (lookup d kk)))) by (intros; apply spec_future_nil).
     now rewrite map_const_repeat, intervals_length.
-  - rewrite dict_walk_cons. inversion Fa; subst. inversion Sl; subst. inversion Sz; subst.
+  - rewrite dict_walk_cons.
+    assert (Szb : zsorted (b :: r)) by (inversion Sz; assumption).
+    assert (Hab : a <= b) by (inversion Sz; subst; match goal with H : Forall _ (b :: r) |- _ => inversion H; assumption end).
+    assert (Sl' : sorted_by time l) by (inversion Sl; assumption).
+    assert (Hae : a < time e) by (inversion Fa; assumption).
+    assert (Fa' : Forall (fun e => a < time e) l) by (inversion Fa; assumption).
     destruct (time e <=? t0) eqn:E0; [lia|].
     destruct (time e >? b) eqn:E1.
     + (* subsequence_index += 1 *)
